@@ -35,7 +35,7 @@ func (c *Ctx) journalValidity(prefix string) {
 	allowed = append(allowed, GP("("+u32("24")+" == p0.pageSize)", true), GP("(p0.pageSize == p0.pageSize)", true))
 	allowed = append(allowed, GP("(os.FileInfo.Size(p0.fi) < (p0.offset + p0.sectorSize))", false))
 	c.OnlyGuards(prefix+"/segment-accepted", nx, p.Writes("litefs.JournalReader.isValid"), allowed, 4,
-		"a journal segment is accepted (isValid=true, nil returned) exactly under the confirmed decision table: header fully read, not zeroed, magic after the first segment, valid sector size, page size equal to the database's, file at least one sector long past the header offset",
+		"a journal segment is accepted (isValid=true, nil returned) exactly under the confirmed decision table: header fully read, not zeroed, magic present, valid sector size, page size equal to the database's, file at least one sector long past the header offset",
 		"C17/C05: rollback must restore the pre-transaction size for every journal SQLite can leave behind; a narrowed test (e.g. '>=' for '>' on the one-sector journal) skips the resize, a widened one rolls back garbage")
 	{
 		// per-segment fields are read from every segment header, not only the first
@@ -82,25 +82,27 @@ func (c *Ctx) journalValidity(prefix string) {
 		GP("(0 == p0.frameN)", false),
 		GP("("+rr+" == io.ErrUnexpectedEOF)", false), GP("("+rr+" == nil)", true),
 		GP("(encoding/binary.(bigEndian).Uint32(encoding/binary.BigEndian, p0.frame[(builtin.len(p0.frame) - 4):]) == litefs.JournalChecksum(p0.frame[4:(builtin.len(p0.frame) - 4)], p0.nonce))", true),
-	}, 1, "a journal record is returned exactly when records remain, the frame was fully read and its checksum equals JournalChecksum(data, nonce)", "a torn final record must end the journal; a valid one must be rolled back")
+		G(pat("(0 == encoding/binary.(bigEndian).Uint32(encoding/binary.BigEndian, p0.frame[0:]))")+"|"+pat("(encoding/binary.(bigEndian).Uint32(encoding/binary.BigEndian, p0.frame[0:]) == 0)"), false), G(pat("(ltx.LockPgno(p0.pageSize) == encoding/binary.(bigEndian).Uint32(encoding/binary.BigEndian, p0.frame[0:]))")+"|"+pat("(encoding/binary.(bigEndian).Uint32(encoding/binary.BigEndian, p0.frame[0:]) == ltx.LockPgno(p0.pageSize))"), false),
+	}, 1, "a journal record is returned exactly when records remain, the frame was fully read, its page number is neither zero nor the lock page and its checksum equals JournalChecksum(data, nonce)", "a torn final record must end the journal; a valid one must be rolled back")
 	c.GuardedPaths(prefix+"/record-requires", rf, okRet, [][]*Guard{
 		{GP("(0 == p0.frameN)", false)},
 		{GP("("+rr+" == nil)", true)},
 		{GP("(encoding/binary.(bigEndian).Uint32(encoding/binary.BigEndian, p0.frame[(builtin.len(p0.frame) - 4):]) == litefs.JournalChecksum(p0.frame[4:(builtin.len(p0.frame) - 4)], p0.nonce))", true)},
-	}, 1, "... and under each of these conditions (none may be dropped)", "a record with a wrong checksum is a torn write: rolling it back corrupts the page")
-	notFirst := GP("(0 < p0.offset)", false)
+		{G(pat("(0 == encoding/binary.(bigEndian).Uint32(encoding/binary.BigEndian, p0.frame[0:]))")+"|"+pat("(encoding/binary.(bigEndian).Uint32(encoding/binary.BigEndian, p0.frame[0:]) == 0)"), false)},
+		{G(pat("(ltx.LockPgno(p0.pageSize) == encoding/binary.(bigEndian).Uint32(encoding/binary.BigEndian, p0.frame[0:]))")+"|"+pat("(encoding/binary.(bigEndian).Uint32(encoding/binary.BigEndian, p0.frame[0:]) == ltx.LockPgno(p0.pageSize))"), false)},
+	}, 1, "... and under each of these conditions (none may be dropped)", "a record with a wrong checksum is a torn write: rolling it back corrupts the page; the checksum does not cover the page number, so a record for page 0 (negative offset) or the lock page ends the journal as in SQLite")
 	first := GP("(0 == p0.offset)", false)
 	c.GuardedPaths(prefix+"/segment-requires", nx, p.Writes("litefs.JournalReader.isValid"), [][]*Guard{
 		{GP("(0 == p0.pageSize)", false)},
 		{GP("("+rd+" == nil)", true)},
 		{GP("litefs.isByteSliceZero("+hdr+")", false)},
-		{notFirst, GP("bytes.Equal("+hdr+`[:8], "\xd9\xd5\x05\xf9 \xa1c\xd7")`, true)},
+		{GP("bytes.Equal("+hdr+`[:8], "\xd9\xd5\x05\xf9 \xa1c\xd7")`, true)},
 		{first, GP("("+u32("20")+" < 32)", false)},
 		{first, GP("(65536 < "+u32("20")+")", false)},
 		{first, GP("(("+u32("20")+" & ("+u32("20")+" - 1)) == 0)", true)},
 		{first, GP("("+u32("24")+" == p0.pageSize)", true), GP("(p0.pageSize == p0.pageSize)", true)},
 		{GP("(os.FileInfo.Size(p0.fi) < (p0.offset + p0.sectorSize))", false)},
-	}, 1, "a segment is accepted only under each condition of the table (none may be dropped): page size known, header read, not zeroed, magic after the first segment, sector size valid and page size equal in the first header, at least one sector present", "")
+	}, 1, "a segment is accepted only under each condition of the table (none may be dropped): page size known, header read, not zeroed, the journal magic in every segment header (a hot journal whose first header is garbage is ignored, as SQLite does), sector size valid and page size equal in the first header, at least one sector present", "")
 }
 
 // journalInvalidation: writer/reader agreement on what a finalised PERSIST journal looks like.
